@@ -59,7 +59,14 @@ CLAIMED["C16"] = dict(
 NOT_APPLICABLE = {}
 
 
+def write_root():
+    mods = ["QV.Core.Num", "QV.Core.Tab", "QV.Lemmas.Bridge", "QV.Lemmas.Taylor"]
+    mods += sorted("QV.Props." + os.path.basename(f)[:-5] for f in __import__("glob").glob(os.path.join(ROOT, "lean/QV/Props/*.lean")))
+    open(os.path.join(ROOT, "lean", "QV.lean"), "w").write("".join("import %s\n" % m for m in mods))
+
+
 def main():
+    write_root()
     props = [json.loads(l) for l in open(os.path.join(ROOT, "properties.jsonl"))]
     checks = []
     for p in props:
@@ -81,7 +88,7 @@ def main():
           for p in props if p["id"] not in CLAIMED]
     man = {
         "version": 1,
-        "setup_cmd": "cd lean && lake build QV",
+        "setup_cmd": "./setup.sh",
         "hooks": {"guard": "QUANTARHEI_VERIF", "enable": "no hooks: checks import /repo's working tree as is (PYTHONPATH=/repo, /venv/bin/python)",
                   "baseline_off_cmd": "cd /repo && /venv/bin/python -m pytest -ra -q -p no:cacheprovider --timeout=900 --continue-on-collection-errors",
                   "source_commits": [], "add_only": True},
